@@ -57,13 +57,15 @@ func (w *World) UsePg() *pgfake.Server {
 	if w.Pg == nil {
 		w.Pg = pgfake.NewServer()
 	}
-	conns := map[int]*pgfake.Conn{}
+	conns := map[[2]int]*pgfake.Conn{}
 	w.NewStore = func(s *Sess) (db.Db, error) {
-		if c := conns[s.Idx]; c != nil {
+		// a worker that opens a new handle for a session has dropped the one it had (another worker's stays)
+		k := [2]int{s.Idx, s.Worker}
+		if c := conns[k]; c != nil {
 			c.Drop()
 		}
 		c := w.Pg.Connect()
-		conns[s.Idx] = c
+		conns[k] = c
 		st := pgdb.NewPgDb().WithConnection(c)
 		return st, nil
 	}
